@@ -5,10 +5,12 @@ import (
 	"fmt"
 	"os"
 	"reflect"
+	"strings"
 	"sync"
 	"syscall"
 	"testing"
 	"time"
+	"verif/harness/zones"
 
 	codec "github.com/uhppoted/uhppote-core/encoding/UTO311-L0x"
 	"github.com/uhppoted/uhppote-core/messages"
@@ -163,22 +165,50 @@ type replyCase struct {
 	Op     string   `json:"op"`
 	Route  int      `json:"route"` // 0 broadcast, 1 udp, 2 tcp
 	Script [][]byte `json:"script"`
+	// the environment the results are rendered in: the configured controller name (it is copied into results) and the zone of
+	// the process ("" = UTC; decoded date-times carry it)
+	Name string `json:"name,omitempty"`
+	PZ   string `json:"process_zone,omitempty"`
 }
 
-func cfgFor(route int, serial uint32) hook.ClientCfg {
+func cfgFor(route int, serial uint32, name ...string) hook.ClientCfg {
+	nm := append(name, "A")[0]
 	switch route {
 	case 1:
-		return hook.ClientCfg{Devices: []hook.DeviceCfg{{Name: "A", Serial: serial, HasAddr: true, IP: [4]byte{10, 0, 0, 1}, Port: 60000, Protocol: "udp"}}}
+		return hook.ClientCfg{Devices: []hook.DeviceCfg{{Name: nm, Serial: serial, HasAddr: true, IP: [4]byte{10, 0, 0, 1}, Port: 60000, Protocol: "udp"}}}
 	case 2:
-		return hook.ClientCfg{Devices: []hook.DeviceCfg{{Name: "B", Serial: serial, HasAddr: true, IP: [4]byte{10, 0, 0, 1}, Port: 60000, Protocol: "tcp"}}}
+		return hook.ClientCfg{Devices: []hook.DeviceCfg{{Name: nm, Serial: serial, HasAddr: true, IP: [4]byte{10, 0, 0, 1}, Port: 60000, Protocol: "tcp"}}}
+	}
+	if len(name) > 0 && name[0] != "" {
+		return hook.ClientCfg{Devices: []hook.DeviceCfg{{Name: nm, Serial: serial}}}
 	}
 	return hook.ClientCfg{}
+}
+
+func inZone(pz string, f func() *rp.Fail) (fail *rp.Fail) {
+	if pz == "" {
+		return f()
+	}
+	ev.Class("rendered-in-process-zone/"+map[bool]string{true: "fixed-zone-with-odd-abbreviation", false: "tz-database-or-synthetic"}[strings.HasPrefix(pz, "Fixed/")], 1)
+	zones.With(zones.Loc(pz), func() { fail = f() })
+	return fail
 }
 
 const serial = 405419896
 
 func decideReply(c replyCase) *rp.Fail {
-	u, d := hook.Mem(cfgFor(c.Route, serial))
+	return inZone(c.PZ, func() *rp.Fail { return decideReplyInner(c) })
+}
+
+func decideReplyInner(c replyCase) *rp.Fail {
+	cfg := cfgFor(c.Route, serial)
+	if c.Name != "" {
+		cfg = cfgFor(c.Route, serial, c.Name)
+		if len([]rune(c.Name)) != len(c.Name) {
+			ev.Class("configured-name/not-ascii", 1)
+		}
+	}
+	u, d := hook.Mem(cfg)
 	d.Reset(c.Script...)
 	if c.Op == "GetDevices" {
 		var list []types.Device
@@ -226,6 +256,10 @@ func checkReply(c replyCase) *rp.Fail {
 
 func genReply(t *rapid.T) replyCase {
 	c := replyCase{Op: gen.Op(t, true), Route: rapid.IntRange(0, 2).Draw(t, "route")}
+	if rapid.IntRange(0, 2).Draw(t, "named") == 0 {
+		c.Name = gen.Name(t, "name")
+	}
+	c.PZ = gen.ProcessZone(t, "process.zone")
 	n := rapid.IntRange(1, 3).Draw(t, "datagrams")
 	for i := 0; i < n; i++ {
 		var b []byte
@@ -349,7 +383,7 @@ func checkListen(c replyCase) *rp.Fail {
 	if ev.WantSample("listener") {
 		ev.Sample("listener", fmt.Sprintf("%x", c.Script))
 	}
-	return decideListen(c.Script)
+	return inZone(c.PZ, func() *rp.Fail { return decideListen(c.Script) })
 }
 
 func decideListen(script [][]byte) *rp.Fail {
@@ -410,7 +444,7 @@ func decideListen(script [][]byte) *rp.Fail {
 }
 
 func genListen(t *rapid.T) replyCase {
-	c := replyCase{Op: "Listen"}
+	c := replyCase{Op: "Listen", PZ: gen.ProcessZone(t, "process.zone")}
 	n := rapid.IntRange(1, 4).Draw(t, "datagrams")
 	for i := 0; i < n; i++ {
 		var b []byte
